@@ -682,7 +682,11 @@ def who_writes(chk, prog, cx, rule="C06.O5"):
             outer = prog.fns.get(f["path"].split("::{closure#")[0])
             oimp = (outer or {}).get("impl") or {}
             ok = outer is not None and oimp.get("self_adt") == PAGE and "trait" not in oimp and outer.get("item") in ("new", "from_bytes")
-        chk.ob(rule, "Page values are constructed only by Page::new / Page::from_bytes / derived Clone (%s)" % f["name"], ok, key="page:ctor:%s" % f["name"], where=loc(s.get("span")))
+        if not ok:
+            # an into_owned / to_owned style conversion: width, height and bytes are those of a Page that already exists
+            import surface
+            ok = surface.rebuilds_from_own_fields(prog, f, PAGE)[0]
+        chk.ob(rule, "Page values are constructed only by Page::new / Page::from_bytes / derived Clone, or rebuilt field by field from an existing Page (%s)" % f["name"], ok, key="page:ctor:%s" % f["name"], where=loc(s.get("span")))
     chk.floor(rule, "Page construction sites", len(ctor_sites), 2)
     # field visibility
     a = prog.adts[PAGE]
